@@ -1,5 +1,6 @@
 mod asm;
 mod core;
+mod ring;
 
 use crate::core::*;
 
@@ -54,6 +55,8 @@ fn main() {
     let code = match (id.as_str(), art) {
         ("C15", None) => asm::run(tier),
         ("C15", Some(a)) => asm::replay(&a),
+        ("C14", None) => ring::run(tier),
+        ("C14", Some(a)) => ring::replay(&a),
         _ => {
             eprintln!("unknown property {}", id);
             2
